@@ -58,7 +58,7 @@ def find_witness(pid, obligation):
                 w["fn"] = fn.split("::")[1]
                 return w
         unit = obligation.get("unit", "")
-        if unit.startswith("lang_"):
+        if unit.startswith("lang_") and pid not in ("C10", "C11", "C17"):
             code = unit[5:]
             rows_path = os.path.join(VERIF, "specs", "templates", f"{code}_rows.json")
             ok, err = build_witness()
@@ -82,10 +82,10 @@ def find_witness(pid, obligation):
                     if p.returncode == 1:
                         w["what"] = p.stdout.strip().replace("\n", " | ")
                         return w
-        if pid in ("C11", "C17"):
+        if pid in ("C11", "C17", "C10"):
             ok, err = build_witness()
             if ok:
-                p = subprocess.run([wbin("meta_witness"), "case" if pid == "C11" else "ws", gen.REPO], capture_output=True, text=True, timeout=120)
+                p = subprocess.run([wbin("meta_witness"), {"C11": "case", "C17": "ws", "C10": "ctx"}[pid], gen.REPO], capture_output=True, text=True, timeout=300)
                 w = json.loads(p.stdout.strip().split("\n")[-1])
                 if w.get("kind") == "meta":
                     return w
